@@ -242,7 +242,7 @@ def build_job(sb: Sandbox, options: dict, sigma: dict, faults: list, extra: dict
     """Translate a schedule vector into the concrete job file and environment of one child."""
     s = full_sigma(sigma)
     out = sb.out
-    if s["out_spelling"] == "nested":
+    if s["out_spelling"] in ("nested", "nested_rel"):
         out = os.path.join(sb.root, "outs/new/a/b")
     cwd_kind = s["cwd"]
     src_sub = sb.src
@@ -275,7 +275,7 @@ def build_job(sb: Sandbox, options: dict, sigma: dict, faults: list, extra: dict
     }[cwd_kind]
     if cwd_kind == "out":
         os.makedirs(out, exist_ok=True)
-    out_sp = "abs" if s["out_spelling"] == "nested" else s["out_spelling"]
+    out_sp = {"nested": "abs", "nested_rel": "rel"}.get(s["out_spelling"], s["out_spelling"])
     src_arg = _spell(sb.src, s["src_spelling"], cwd, sb, False)
     out_arg = _spell(out, out_sp, cwd, sb, True)
     argv = ["-s", src_arg, "-o", out_arg, *options_to_argv(options)]
